@@ -85,7 +85,9 @@ Detail(e, clause) ==
     [] clause = "no-data-race" -> RaceClasses(e)
     [] clause = "every-link-resolves" ->
          \* a link into a page group that was switched off: the target exists when every group is published
-         IF HasRun(e, "allgroups") /\ \A x \in DeadLinks(Ref(e)) : x[2] \in Names(Run(e, "allgroups")) \cup (IF HasRun(e, "linkgroups") THEN Names(Run(e, "linkgroups")) ELSE {})
+         \* (the groups the known finding is about: pages of individuals, their index pages, pages of sources; "linkgroups" is this
+         \* very site with those two groups switched on as well - a link to a page of any other group is not explained)
+         IF HasRun(e, "linkgroups") /\ \A x \in DeadLinks(Ref(e)) : x[2] \in Names(Run(e, "linkgroups"))
          THEN "asis:LinksIntoDisabledGroups"
          ELSE DeadGroups(e)
     [] OTHER -> ""
